@@ -60,6 +60,10 @@ def digest(model, ids: list[str], rel_sample: list[str], anchors: list[str], typ
             out[("obj", u)] = "EXC " + type(ex).__name__
             continue
         try:
+            out[("refs", u)] = sorted((getattr(r_, "uuid", None) or "", a_) for r_, a_, _i in model.find_references(obj))
+        except Exception as ex:  # noqa: BLE001
+            out[("refs", u)] = "EXC " + type(ex).__name__
+        try:
             p = obj.parent
             out[("parent", u)] = getattr(p, "uuid", None)
         except Exception as ex:  # noqa: BLE001
@@ -284,6 +288,68 @@ def run(chk: lib.Check):
                                           f"the id now occurs {owners_}x", {"model": spec0["name"], "picks": picks, "uuid": outside, "host": host.uuid, "relation": relname})
                 except Exception as ex:  # noqa: BLE001
                     stats[f"clash-probe-skipped:{type(ex).__name__}"] += 1
+                # the same structural edits (delete a leaf inside the innermost fragment, create a child of its root with a given uuid)
+                # on a fresh single-file model and on the fragmented one: same outcomes, same observations afterwards
+                try:
+                    inner_el = chosen[-1]
+                    leaf_id = next((d.get("id") for d in inner_el.iterdescendants() if isinstance(d.tag, str) and d.get("id") and len(d) == 0
+                                    and d.get(graph.XSI_TYPE) and d.get(graph.XSI_TYPE) not in link_types), None)
+                    new_uuid = str(__import__("uuid").UUID(int=rng.getrandbits(128), version=4))
+                    mono2 = corpus.load(spec0)
+
+                    def structural_edits(m):
+                        import histories as H_
+                        hr_ = H_.HistoryRunner(m, rng)
+                        res = []
+                        if leaf_id:
+                            try:
+                                leaf = m.by_uuid(leaf_id)
+                                cont = hr_.container_of(leaf)
+                                if cont is None:
+                                    res.append("delete:no-container")
+                                else:
+                                    getattr(cont[0], cont[1]).remove(leaf)
+                                    res.append("deleted")
+                            except Exception as ex:  # noqa: BLE001
+                                res.append("delete:" + type(ex).__name__)
+                        try:
+                            host_ = m.by_uuid(inner_el.get("id"))
+                            rels_ = sorted(hr_.rels(host_, ("direct",)), key=lambda na: na[0])
+                            done_ = "create:no-relation"
+                            for relname_, racc_ in rels_:
+                                hints_ = sorted(getattr(racc_, "xtypes", []) or [])
+                                try:
+                                    l_ = getattr(host_, relname_)
+                                    l_.create(hints_[0], name="c06 new", uuid=new_uuid) if hints_ else l_.create(name="c06 new", uuid=new_uuid)
+                                    done_ = f"created:{relname_}"
+                                    break
+                                except Exception as ex:  # noqa: BLE001
+                                    done_ = f"create:{relname_}:{type(ex).__name__}"
+                            res.append(done_)
+                        except Exception as ex:  # noqa: BLE001
+                            res.append("create:" + type(ex).__name__)
+                        return res
+
+                    rm_, rf_ = structural_edits(mono2), structural_edits(frag)
+                    stats[f"structural-edits:{'+'.join(x.split(':')[0] for x in rf_)}"] += 1
+                    if rm_ != rf_:
+                        chk.violation("edit-outcome-differs", f"the same edits give {rm_} on the single-file model and {rf_} on the fragmented layout",
+                                      {"model": spec0["name"], "picks": picks, "leaf": leaf_id, "new_uuid": new_uuid, "mono": rm_, "fragmented": rf_})
+                    else:
+                        s2 = [u_ for u_ in sample if u_ != leaf_id] + [new_uuid]
+                        r2 = [u_ for u_ in rel_sample if u_ != leaf_id] + [new_uuid]
+                        dm2, dfe = digest(mono2, s2, r2, anchors, types), digest(frag, s2, r2, anchors, types)
+                        for key in dm2:
+                            if dm2[key] != dfe.get(key):
+                                what = key[0] if isinstance(key, tuple) else key
+                                chk.violation(f"after-edit:{what}", f"{key} after {rf_}: single file gives {str(dm2[key])[:160]}, fragmented layout gives {str(dfe.get(key))[:160]}",
+                                              {"model": spec0["name"], "picks": picks, "observation": list(key) if isinstance(key, tuple) else key, "edits": rf_,
+                                               "mono": dm2[key], "fragmented": dfe.get(key)})
+                                break
+                        sample, rel_sample, dm, df = s2, r2, dm2, dfe
+                    del mono2
+                except Exception as ex:  # noqa: BLE001
+                    chk.violation(f"structural-edit-harness:{type(ex).__name__}", f"structural edits on layout {picks} failed in the harness: {ex!r}", {"picks": picks})
                 # edits + save on the fragmented layout: each element is written to the file that owns it
                 try:
                     tgt = frag.by_uuid(chosen[-1].get("id"))
@@ -306,9 +372,29 @@ def run(chk: lib.Check):
                     if b"renamed in fragment" not in ftxt or b"renamed in fragment" in mtxt:
                         chk.violation("save-wrong-owner", "an edit inside a fragment was not written to the fragment file (or leaked into the main file)",
                                       {"model": spec0["name"], "picks": picks})
+                    # a second round through an object looked up again ...
+                    tgt2 = frag.by_uuid(chosen[-1].get("id"))
+                    tgt2.summary = "second round"
+                    # ... the object held since before the save must still be the same model object
+                    held_name = f"held {li}"
+                    try:
+                        tgt.name = held_name
+                        if str(frag.by_uuid(chosen[-1].get("id")).name) != held_name:
+                            chk.violation("stale-object-after-save", "an object held since before save() (the root element of a fragment) no longer writes to the model after the save: "
+                                          "setting .name on it is not visible through by_uuid()", {"model": spec0["name"], "picks": picks, "uuid": chosen[-1].get("id")})
+                    except Exception as ex:  # noqa: BLE001
+                        chk.violation(f"stale-object-after-save:{type(ex).__name__}", f"setting an attribute on an object held across save() raised {ex!r}", {"picks": picks})
+                    frag.save()
                     re = capellambse.MelodyModel(str(tmp / "m" / aird))
-                    if "renamed in fragment" not in str(re.by_uuid(chosen[-1].get("id")).description):
+                    if "renamed in fragment" not in str(re.by_uuid(chosen[-1].get("id")).description) or str(re.by_uuid(chosen[-1].get("id")).summary) != "second round":
                         chk.violation("save-reload-lost-edit", "edit inside a fragment lost after save+reload", {"picks": picks})
+                    dr = digest(re, sample, rel_sample, anchors, types)
+                    for key in dm:
+                        if dr.get(key) != dm[key]:
+                            what = key[0] if isinstance(key, tuple) else key
+                            chk.violation(f"after-reload:{what}", f"{key}: the edited single-file model gives {str(dm[key])[:160]}, the saved and reloaded fragmented one {str(dr.get(key))[:160]}",
+                                          {"model": spec0["name"], "picks": picks, "observation": list(key) if isinstance(key, tuple) else key})
+                            break
                     del re
                 except Exception as ex:  # noqa: BLE001
                     chk.violation(f"edit-save-fails:{type(ex).__name__}", f"edit+save on fragmented layout fails: {ex!r}", {"model": spec0["name"], "picks": picks})
